@@ -102,6 +102,31 @@ theorem restructure_in_place_coherent (t : M) (hc : Coherent t) :
    fun sep => ⟨(flattenM_spec sep t hc).2.2, (flattenM_spec sep t hc).1⟩,
    fun sep => ⟨(unflattenM_spec sep t hc).2.2, (unflattenM_spec sep t hc).1⟩⟩
 
+/-- writes into existing storage — `set_`, `set_at_`, `update_`, `update_at_`, `td[index] = value` (tensor, dict or tensordict
+value, auto-created keys included): whatever the call did to the values, if what it did to the METADATA lies inside the
+envelope `growsK` — every existing entry keeps its key, place, batch size, device and names at every depth, and an entry
+that appears (only `td[index] = {new_key: …}` may do that) fits its container and is coherent — the tree stays coherent
+and the node keeps its batch size. The check sends the state observed after every such call (accepted or raising) through
+`writeM`: an effect outside the envelope is a broken correspondence. -/
+theorem writes_into_storage_coherent (allowNew : Bool) (observed t : M) (hc : Coherent t) :
+    Coherent (writeM allowNew observed t).1 ∧ (writeM allowNew observed t).1.shape = t.shape ∧
+    ((writeM allowNew observed t).2 = .ok → ∃ bs dv ns kids kids', t = .node bs dv ns kids ∧
+      (writeM allowNew observed t).1 = .node bs dv ns kids' ∧ growsK allowNew bs dv kids kids' = true) := by
+  refine ⟨(writeM_spec allowNew observed t hc).2.2, (writeM_spec allowNew observed t hc).1, ?_⟩
+  intro hok
+  cases t with
+  | leaf s d => simp [writeM] at hok
+  | node bs dv ns kids =>
+    cases observed with
+    | leaf s d => simp [writeM] at hok
+    | node bs' dv' ns' kids' =>
+      simp only [writeM] at hok ⊢
+      split at hok
+      · rename_i h
+        simp only [Bool.and_eq_true] at h
+        exact ⟨bs, dv, ns, kids, kids', rfl, by rw [if_pos (by simpa using h)], h.2⟩
+      · simp at hok
+
 /-! ## one step -/
 
 /-- the value of a `set` is itself a coherent tensor / tensordict (what the constructors deliver) -/
@@ -121,7 +146,7 @@ def InScope (t : M) : Op → Prop
 
 /-- THE PROPERTY, one step: for every modelled operation — set, batch_size, names, del_, rename_key_, create_nested, clear,
 pop, popitem, setdefault, refine_names, update with dict or tensordict payloads, exclude / flatten_keys / unflatten_keys in place,
-auto_batch_size_ — issued on the root or through any nested handle, and for EVERY outcome (accepted or raising, partial
+auto_batch_size_, and the writes into existing storage (set_, set_at_, update_, update_at_, `td[index] = value`) through their envelope — issued on the root or through any nested handle, and for EVERY outcome (accepted or raising, partial
 effects included): a coherent tree stays coherent. `ValOk`: the written value is itself a coherent tensor / tensordict;
 `InScope`: the property's documented exclusion (a child resized through a direct handle below its parent's batch size).
 (Until the two `fix:` commits on `_batch_size_setter` / `auto_batch_size_` the statement needed two more hypotheses: a
@@ -149,6 +174,7 @@ theorem step_coherent (t : M) (hc : Coherent t) (op : Op) (hv : ValOk op) (hs : 
   | refineNames h ns => exact (atPath_keeps _ (fun n hn => refineNamesM_spec ns n hn) h t hc).2.2
   | update h items => exact (atPath_keeps _ (fun n hn => updateC_spec _ items n hn) h t hc).2.2
   | updateTd h m => exact (atPath_keeps _ (fun n hn => updateTdM_spec m n hn hv) h t hc).2.2
+  | write h an obs => exact (atPath_keeps _ (fun n hn => writeM_spec an obs n hn) h t hc).2.2
   | excludeIn h keys => exact (atPath_keeps _ (fun n hn => excludeM_spec keys n hn) h t hc).2.2
   | flattenIn h sep => exact (atPath_keeps _ (fun n hn => flattenM_spec sep n hn) h t hc).2.2
   | unflattenIn h sep => exact (atPath_keeps _ (fun n hn => unflattenM_spec sep n hn) h t hc).2.2
